@@ -348,3 +348,8 @@ func (w *World) someDefMentions(f *Fn, e ast.Expr, obj types.Object) bool {
 	}
 	return false
 }
+
+// excuseErrIsNilFalse: the false branch of an `err == nil` test (error known non-nil).
+func excuseErrIsNilFalse(w *World) Excuse {
+	return Excuse{Cond: func(e ast.Expr) bool { return w.errNonNil(e, false) }, Val: false}
+}
